@@ -30,11 +30,24 @@ class Node:
         return "<%d %s %s>" % (self.id, self.kind, self.loc)
 
 
+_ASSERT_MEMO = {}
+
+
 def contains_assert(e):
+    # fact nodes are immutable once loaded and live as long as the program: remember the answer per node
+    if isinstance(e, dict):
+        k = id(e)
+        hit = _ASSERT_MEMO.get(k)
+        if hit is not None and hit[0] is e:
+            return hit[1]
+    r = False
     for x in walk_nolambda(e):
         if x.get("k") == "call" and x.get("fn") in ("__assert_fail", "__assert_perror_fail"):
-            return True
-    return False
+            r = True
+            break
+    if isinstance(e, dict):
+        _ASSERT_MEMO[k] = (e, r)
+    return r
 
 
 def is_noreturn_call(e):
